@@ -686,6 +686,48 @@ class Effects:
                         out.extend(x for x in c if x not in out)
         return out if found else None
 
+    def _callable_alias(self, fi, name):
+        """(dotted callee, bound argument nodes) for a local every assignment of which names one library / package function,
+        directly (`f = np.fft.fft`, `a, b = np.sqrt, np.exp`) or through functools.partial (`g = partial(sg.sosfiltfilt, sos)`)"""
+        if name in fi.params:
+            return None
+        found = None
+        for n in ast.walk(fi.node):
+            pairs = []
+            if isinstance(n, ast.Assign):
+                for t in n.targets:
+                    if isinstance(t, ast.Name):
+                        pairs.append((t, n.value))
+                    elif isinstance(t, (ast.Tuple, ast.List)) and isinstance(n.value, (ast.Tuple, ast.List)) and len(t.elts) == len(n.value.elts):
+                        pairs.extend(zip(t.elts, n.value.elts))
+                    else:
+                        pairs.extend((sub, None) for sub in ast.walk(t) if isinstance(sub, ast.Name))
+            elif isinstance(n, (ast.AugAssign, ast.AnnAssign, ast.For, ast.NamedExpr)):
+                pairs.extend((sub, None) for sub in ast.walk(n.target) if isinstance(sub, ast.Name))
+            elif isinstance(n, (ast.FunctionDef, ast.Lambda)) and n is not fi.node and getattr(n, "name", None) == name:
+                return None
+            for t, v in pairs:
+                if not (isinstance(t, ast.Name) and t.id == name):
+                    continue
+                if v is None:
+                    return None
+                bound = []
+                if isinstance(v, ast.Call) and self.pkg.resolve_expr(fi.module, fi, v.func) == "functools.partial" and v.args:
+                    bound = list(v.args[1:])
+                    v = v.args[0]
+                if not isinstance(v, (ast.Name, ast.Attribute)):
+                    return None
+                root = v
+                while isinstance(root, ast.Attribute):
+                    root = root.value
+                if not isinstance(root, ast.Name) or root.id in fi.locals or root.id in fi.params:
+                    return None
+                dotted = self.pkg.resolve_expr(fi.module, fi, v)
+                if not dotted or (found is not None and found[0] != dotted):
+                    return None
+                found = (dotted, bound)
+        return found
+
     def _ctor_class(self, call, fi):
         if not isinstance(call, ast.Call):
             if isinstance(call, ast.Subscript):
@@ -807,6 +849,13 @@ class Effects:
                 for q, cs in self.sum.items():
                     if cs.fi.parent is fi and cs.fi.name == f.id:
                         return self._apply_summary(cs.fi, args, kws, s, e)
+                ca = self._callable_alias(fi, f.id)
+                if ca is not None:
+                    # a local that only ever names one library / package function (possibly with leading arguments bound)
+                    bound = [self.roots(b, fi, s, env, fld) for b in ca[1]]
+                    for r in bound:
+                        allr |= r
+                    return self._call_dotted(ca[0], e, bound + args, kws, allr, fi, s, env, fld)
                 return allr
             dotted = self.pkg.resolve_name(fi.module, fi, f.id) or f.id
         elif isinstance(f, ast.Attribute):
